@@ -167,6 +167,16 @@ func checkC24(r *Result) []Violation {
 			tam = p.Int
 		}
 		table := map[uint32]string{}
+		// a resumed session carries stored copies of messages queued for an earlier connection
+		resumed := "false"
+		if ca := connack(c); ca != nil && ca.P.SessionPresent {
+			resumed = "true"
+		}
+		// with a small Receive Maximum the PUBLISH that binds an alias can be deferred behind later ones
+		rmLimited := "false"
+		if p, ok := cp.Props.Get(refcodec.PReceiveMaximum); ok && p.Int <= 3 {
+			rmLimited = "true"
+		}
 		for _, pr := range c.Pkts {
 			if pr.P.Type != refcodec.PUBLISH {
 				continue
@@ -178,16 +188,16 @@ func checkC24(r *Result) []Violation {
 			}
 			if has {
 				if tam == 0 {
-					out = append(out, viol("C24", "alias-used-though-maximum-0", fmt.Sprintf("conn %d: PUBLISH carries topic alias %d but the client's Topic Alias Maximum is 0", c.Idx, ap.Int), pr.Seq))
+					out = append(out, viol("C24", "alias-used-though-maximum-0", fmt.Sprintf("conn %d: PUBLISH carries topic alias %d but the client's Topic Alias Maximum is 0", c.Idx, ap.Int), pr.Seq, "resumed", resumed))
 				} else if ap.Int > tam {
-					out = append(out, viol("C24", "alias-above-client-maximum", fmt.Sprintf("conn %d: topic alias %d exceeds the client's maximum %d", c.Idx, ap.Int, tam), pr.Seq))
+					out = append(out, viol("C24", "alias-above-client-maximum", fmt.Sprintf("conn %d: topic alias %d exceeds the client's maximum %d", c.Idx, ap.Int, tam), pr.Seq, "resumed", resumed))
 				}
 			}
 			if pr.P.Topic == "" {
 				if !has {
 					out = append(out, viol("C24", "empty-topic-without-alias", fmt.Sprintf("conn %d: PUBLISH %q with empty topic and no alias", c.Idx, payloadIDOf(pr.P.Payload)), pr.Seq, "how", how))
 				} else if _, ok := table[ap.Int]; !ok {
-					out = append(out, viol("C24", "alias-not-bound-on-this-connection", fmt.Sprintf("conn %d: PUBLISH %q uses topic alias %d with an empty topic, but no earlier PUBLISH on this connection bound it", c.Idx, payloadIDOf(pr.P.Payload), ap.Int), pr.Seq, "how", how))
+					out = append(out, viol("C24", "alias-not-bound-on-this-connection", fmt.Sprintf("conn %d: PUBLISH %q uses topic alias %d with an empty topic, but no earlier PUBLISH on this connection bound it", c.Idx, payloadIDOf(pr.P.Payload), ap.Int), pr.Seq, "how", how, "resumed", resumed, "rm_limited", rmLimited))
 				}
 			} else if has {
 				table[ap.Int] = pr.P.Topic
